@@ -132,6 +132,9 @@ func (c *RecClient) Flush() error {
 	return nil
 }
 
+// InCall reports whether a Send or Flush is executing right now.
+func (c *RecClient) InCall() bool { return atomic.LoadInt32(&c.inCall) != 0 }
+
 // Calls returns a copy of the call log.
 func (c *RecClient) Calls() []Call {
 	c.mu.Lock()
